@@ -721,4 +721,18 @@ def World.run (w : World) : List Step → List (Option Obs)
     | .panic => [none]
     | .ok (w, o) => some o :: w.run ss
 
+/-- the world after a script (`none` if a step panicked) -/
+def World.runTo (w : World) : List Step → Option World
+  | [] => some w
+  | s :: ss =>
+    match w.step s with
+    | .panic => none
+    | .ok (w, _) => w.runTo ss
+
+/-- decoded bytes of a framed wire text `?OTR:`base64`.` -/
+def unframe (m : Bytes) : Option Bytes :=
+  if hasPrefix msgPrefix m ∧ lastIs dot m then
+    b64dec ((m.drop msgPrefix.length).take (m.length - msgPrefix.length - 1))
+  else none
+
 end XC.C47
